@@ -199,6 +199,18 @@ def run(ctx, chk, tier="quick"):
             self.lineno = getattr(tab["node"], "lineno", 0)
             self.key = tab["key"]
     cst, pst = _Site(ctab), _Site(ptab)
+    # the candidate relation itself: every storm under every overlapping step of a rise (match_storms)
+    from ..classfacts import partial_overlap_positions
+    ms_ = ctx.func("classify.match_storms")
+    partial = partial_overlap_positions(ms_, Flow.of(ms_))
+    if partial is None:
+        chk.indeterminate("C02.O7", where_of(ms_, ms_.node), "overlap relation (rain mask & jump mask) not found in match_storms")
+    else:
+        chk.ob("C02.O7", not partial, where_of(ms_, partial[0] if partial else ms_.node),
+               ("particular positions of the overlap are picked out (%s)" % ", ".join(sorted({ast.unparse(x) for x in partial}))[:100]) if partial
+               else "the positions where a rise and the rain overlap are used whole",
+               "the candidate graph has an edge for every storm under every overlapping step of a rise",
+               key="match_storms|whole-overlap", why="a storm dropped from the candidate graph never proposes to the rise: an overlapping pair that both prefer is a blocking pair")
     _grouping_obligation(ctx, chk, dm, dflow, ctab, "candidate")
     _grouping_obligation(ctx, chk, dm, dflow, ptab, "preference")
     cval = dflow.expand(cst.value, keep=set())
